@@ -316,6 +316,24 @@ func genUI(r *rand.Rand, n int, emit func(Op)) {
 				keys = append(keys, pick(r, []string{"\x00", "\xff", "\t", "\n", "Z", "~", "é"}))
 			}
 		}
+		/* history walks: several pages opened, some steps back, a new page opened from there,
+		   then forward (which must do nothing) and back again */
+		if r.Intn(3) == 0 {
+			walk := []any{}
+			opens := 2 + r.Intn(3)
+			for k := 0; k < opens; k++ {
+				walk = append(walk, pick(r, []string{"j", "k", "j"}), pick(r, []string{" ", " ", "c", "a", ":open " + pick(r, starts) + "\r", "1."}))
+			}
+			for k := 1 + r.Intn(opens); k > 0; k-- {
+				walk = append(walk, "h")
+			}
+			walk = append(walk, pick(r, []string{"j", "k", ""}), pick(r, []string{" ", " ", "c", ":open " + pick(r, starts) + "\r"}))
+			for k := 1 + r.Intn(3); k > 0; k-- {
+				walk = append(walk, pick(r, []string{"l", "l", "h"}))
+			}
+			at := r.Intn(len(keys) + 1)
+			keys = append(keys[:at:at], append(walk, keys[at:]...)...)
+		}
 		/* terminal resizes between keys, also in the middle of typing a command or a number;
 		   often only one of the two dimensions changes */
 		uiW, uiH := 20+r.Intn(100), 2+r.Intn(50)
